@@ -430,11 +430,11 @@ def splice_fn(it_spec, item, contract, unit, em, extraction, active=None, featur
             if m.group(2) and m.group(2) not in lower.loop_keys(lower.loops(body)):
                 continue   # anchor required only when that loop exists (alternative shape)
             hint = select_hints(contract.get(sec), active)
+            if not hint:
+                continue   # nothing of this section belongs to the property being checked: its anchor is not needed
             mm_ = re.search(m.group(1), body)
             if not mm_:
                 raise Unsupported("lost anchor: %s @after /%s/" % (key, m.group(1)))
-            if not hint:
-                continue
             # end of the statement: next ';' at bracket depth 0 relative to the match start
             depth, i = 0, mm_.start()
             while i < len(body):
